@@ -142,14 +142,25 @@ Example ex_store_agrees :
   Forall (fun b => ex_store (fst b) = Some (snd b)) (first_occ (blocks_of ex_loads)).
 Proof. repeat constructor. Qed.
 
+(* two callbacks registered with Write, the same two with Prepare (used by Dump) *)
 Example ex_selective_car :
-  exists out cbs size,
-    sc_write [ex_root; ex_mid] (blocks_of ex_loads) true = (out, cbs, true)
+  exists out evs size,
+    sc_write 2 [ex_root; ex_mid] (blocks_of ex_loads) true = (out, evs, true)
     /\ sc_prepare [ex_root; ex_mid] (blocks_of ex_loads) true = Some (size, [ex_root; ex_mid], [ex_root; ex_leaf; ex_mid])
-    /\ sc_dump ex_store [ex_root; ex_mid] [ex_root; ex_leaf; ex_mid] = (out, cbs, true)
+    /\ sc_dump 2 ex_store [ex_root; ex_mid] [ex_root; ex_leaf; ex_mid] = (out, evs, true)
     /\ size = blen out /\ size = 68
-    /\ map cb_off cbs = [36; 49; 58] /\ map cb_size cbs = [13; 9; 10].
+    /\ map fst evs = [0; 1; 0; 1; 0; 1]%nat
+    /\ map cb_off (reports 0 evs) = [36; 49; 58] /\ map cb_size (reports 0 evs) = [13; 9; 10]
+    /\ map cb_off (reports 1 evs) = [36; 49; 58] /\ map cb_size (reports 1 evs) = [13; 9; 10].
 Proof. do 3 eexists. repeat split; vm_compute; reflexivity. Qed.
+
+(* three callbacks for Write, one for Prepare/Dump: callback 0 is told the same by both *)
+Example ex_selective_car_3_1 :
+  reports 0 (snd (fst (sc_dump 1 ex_store [ex_root; ex_mid] [ex_root; ex_leaf; ex_mid])))
+  = reports 0 (snd (fst (sc_write 3 [ex_root; ex_mid] (blocks_of ex_loads) true)))
+  /\ length (snd (fst (sc_write 3 [ex_root; ex_mid] (blocks_of ex_loads) true))) = 9%nat
+  /\ snd (fst (sc_write 0 [ex_root; ex_mid] (blocks_of ex_loads) true)) = [].
+Proof. repeat split; vm_compute; reflexivity. Qed.
 
 Example ex_write_car :
   write_car None (blocks_of ex_loads) true
